@@ -36,16 +36,20 @@ IDENT_CHARS = re.compile(r"[A-Za-z0-9_]*\Z")
 NAME_ALPHABET = set("abcdefghijklmnopqrstuvwxyzABCDEFGHIJKLMNOPQRSTUVWXYZ0123456789_/")
 DOTTED_NAME = re.compile(r"[A-Za-z_][A-Za-z0-9_]*(\.[A-Za-z_][A-Za-z0-9_]*)*\Z")
 
-# reviewed inventory of dynamic-code / dynamic-import sites: (module, callee) -> count
+# reviewed inventory of dynamic-code / dynamic-import sites: (enclosing function, callee) -> required literal prefix of the argument
+# text (None: the argument is decided by another rule).  Keyed by function and argument form, not by count: the same call
+# appearing twice (a helper used from two branches) is the same reviewed site; a site elsewhere, or with another form, is new.
 SITE_INVENTORY = {
-    ("flow.record.base", "exec"): 1,  # the record class template (R6.3)
-    ("flow.record.base", "importlib.import_module"): 3,  # adapter by scheme (RecordAdapter), fieldtype() x2 behind whitelist
-    ("flow.record.selector", "compile"): 2,  # Selector (PyCF_ONLY_AST) and CompiledSelector (documented unsafe)
-    ("flow.record.selector", "eval"): 1,  # CompiledSelector.match
-    ("flow.record.stream", "compile"): 1,  # rdump -E, operator supplied
-    ("flow.record.stream", "exec"): 1,  # rdump -E, operator supplied
-    ("flow.record.tools.rdump", "import_module"): 1,  # list_adapters over package contents
-    ("flow.record.adapter", "__import__"): 1,  # __import__("pkgutil") constant
+    ("flow.record.base._generate_record_class", "exec"): None,  # the record class template (R6.3)
+    ("flow.record.base.RecordAdapter", "importlib.import_module"): ("flow.record.adapter.",),  # adapter by scheme
+    ("flow.record.base.fieldtype", "importlib.import_module"): ("flow.record.fieldtypes",),  # behind the whitelist test (R6.4)
+    ("flow.record.selector.Selector.__init__", "compile"): None,  # PyCF_ONLY_AST, checked below
+    ("flow.record.selector.CompiledSelector.__init__", "compile"): None,  # documented unsafe engine
+    ("flow.record.selector.CompiledSelector.match", "eval"): None,
+    ("flow.record.stream.RecordFieldRewriter.__init__", "compile"): None,  # rdump -E, operator supplied
+    ("flow.record.stream.RecordFieldRewriter.rewrite", "exec"): None,
+    ("flow.record.tools.rdump.list_adapters", "import_module"): ("flow.record.adapter.",),  # over package contents
+    ("flow.record.adapter", "__import__"): ("pkgutil",),  # constant
 }
 DANGEROUS = {"exec", "eval", "compile", "__import__", "importlib.import_module", "import_module", "importlib.__import__",
              "builtins.exec", "builtins.eval", "builtins.compile", "runpy.run_path", "runpy.run_module", "os.system",
@@ -495,13 +499,70 @@ def run(ctx):
     # ------------------------------------------------------------------ R6.5 inventory of dynamic code sites
     ctx.rule("R6.5", "exec/eval/compile/import sites per module equal the reviewed inventory; _generate_record_class is "
                      "called only from RecordDescriptor.__init__; Selector compiles with PyCF_ONLY_AST")
-    found: dict = {}
     sites = []
+    from ..strsym import text_structure
+    from ..core import copy_ast
+
+    def literal_prefix(fn, module, e):
+        """Leading literal text of a string-building expression (module constants folded); None when it starts with a variable part."""
+        e = copy_ast(e)
+        for n in ast.walk(e):
+            for fld, v in ast.iter_fields(n):
+                vs = v if isinstance(v, list) else [v]
+                for k, x in enumerate(vs):
+                    if isinstance(x, ast.Name) and isinstance(x.ctx, ast.Load) and (fn is None or x.id not in {t.id for t in ast.walk(fn) if isinstance(t, ast.Name) and isinstance(t.ctx, ast.Store)}):
+                        try:
+                            val = prog.fold(module, x)
+                        except NotConst:
+                            continue
+                        if isinstance(val, str):
+                            c0 = ast.Constant(value=val)
+                            if isinstance(v, list):
+                                v[k] = c0
+                            else:
+                                setattr(n, fld, c0)
+        if isinstance(e, ast.Name):
+            try:
+                val = prog.fold(module, e)
+                if isinstance(val, str) and not (fn is not None and any(isinstance(t, ast.Name) and t.id == e.id and isinstance(t.ctx, ast.Store) for t in ast.walk(fn))):
+                    e = ast.Constant(value=val)
+            except NotConst:
+                pass
+        from ..strsym import literal_prefix as _lp
+
+        holder = fn if fn is not None else ast.Module(body=[], type_ignores=[])
+        # locals of the function that hold module constants are folded inside text_structure through their definitions
+        return _lp(_fold_names(text_structure(holder, e)))
+
+    def _fold_names(parts):
+        out = []
+        for p_ in parts:
+            if p_[0] == "var" and p_[1].isidentifier():
+                try:
+                    val = prog.fold(base if True else None, ast.Name(id=p_[1], ctx=ast.Load()))
+                    if isinstance(val, str):
+                        out.append(("lit", val))
+                        continue
+                except NotConst:
+                    pass
+            if p_[0] == "alt":
+                out.append(("alt", [_fold_names(a) for a in p_[1]]))
+                continue
+            out.append(p_)
+        # merge adjacent literals
+        merged = []
+        for p_ in out:
+            if merged and merged[-1][0] == "lit" and p_[0] == "lit":
+                merged[-1] = ("lit", merged[-1][1] + p_[1])
+            else:
+                merged.append(p_)
+        return merged
+
     for m in prog.modules.values():
         for c in calls_in(m.tree, nested=True):
             cn = call_name(c)
-            if cn is None or prog.in_transparent_helper(c):
-                continue  # (a fully inlined helper is analysed, and counted, inside its callers)
+            if cn is None:
+                continue
             r = prog.resolve_expr(m, c.func)
             full = r.name if isinstance(r, Ref) else cn
             short = full.replace("builtins.", "")
@@ -509,17 +570,24 @@ def run(ctx):
                 # local shadowing (e.g. a method called compile on an object) is excluded by resolution: only Names/known modules
                 if isinstance(c.func, ast.Attribute) and not isinstance(r, Ref):
                     continue
-                key = (m.modname, cn)
-                found[key] = found.get(key, 0) + 1
+                f = enclosing_function(c)
+                where = qualname_of(f) if f is not None else m.modname
                 sites.append((m, c, cn))
+                ctx.use(m)
+                key = (where, cn)
+                construct = f"{where.replace('flow.record.', '')}:{cn}"
+                if key not in SITE_INVENTORY:
+                    ctx.fail("R6.5", construct, f"`{norm(c)[:70]}` is a dynamic code / import site that is not in the reviewed inventory", c, key=f"R6.5:new-site:{where}:{cn}")
+                    continue
+                want = SITE_INVENTORY[key]
+                if want is None:
+                    ctx.ok("R6.5", construct, "reviewed site", c)
+                    continue
+                arg = c.args[0] if c.args else None
+                pref = literal_prefix(f, m, arg) if arg is not None else ""
+                ctx.check(any(pref.startswith(w) for w in want), "R6.5", construct, f"`{norm(c)[:70]}`: the reviewed form of this site starts with {want}, this one starts with {pref!r}", c,
+                          f"argument starts with {pref!r}", key=f"R6.5:site-form:{where}:{cn}")
     ctx.floor("R6.5", "dynamic code / import call sites in the package", len(sites), 8)
-    for key, n in sorted(found.items()):
-        exp = SITE_INVENTORY.get(key, 0)
-        ctx.check(n <= exp, "R6.5", f"{key[0]}:{key[1]}",
-                  f"{n} call site(s) of {key[1]} in {key[0]}, the reviewed inventory allows {exp}",
-                  next(c for m, c, cn in sites if (m.modname, cn) == key and True),
-                  f"{n} site(s), inventory {exp}", key=f"R6.5:new-site:{key[0]}:{key[1]}")
-        ctx.use(prog.module(key[0]))
     # Selector.__init__ must pass PyCF_ONLY_AST
     sel_init = ctx.anchor_func("flow.record.selector.Selector.__init__")
     for c in calls_in(sel_init):
